@@ -12,6 +12,8 @@ import (
 type SpecGen struct {
 	R   *lib.Rand
 	Tag string // unique tag woven into names (leak detection in histories)
+	// NoRefs builds a document without a single $ref (everything inline)
+	NoRefs bool
 
 	Doc      map[string]any
 	defNames []string
@@ -59,6 +61,14 @@ func (g *SpecGen) objectSchema(depth int, refs bool) map[string]any {
 			props[name] = map[string]any{"type": "array", "items": s}
 		case refs && len(g.defNames) > 0 && g.R.P(0.3):
 			props[name] = map[string]any{"$ref": "#/definitions/" + g.defNames[g.R.Intn(len(g.defNames))]}
+		case refs && len(g.defNames) > 0 && g.R.P(0.15):
+			// a reference with siblings (description / example) at an items or additionalProperties position
+			ref := map[string]any{"$ref": "#/definitions/" + g.defNames[g.R.Intn(len(g.defNames))], "description": "ref with siblings", "example": map[string]any{}}
+			if g.R.Bool() {
+				props[name] = map[string]any{"type": "array", "items": ref}
+			} else {
+				props[name] = map[string]any{"type": "object", "additionalProperties": ref}
+			}
 		default:
 			s, _, _ := g.scalar()
 			props[name] = s
@@ -106,13 +116,13 @@ func (g *SpecGen) Clean() map[string]any {
 	nd := g.R.Range(2, 4)
 	for i := 0; i < nd; i++ {
 		name := fmt.Sprintf("D%d%s", i, g.Tag)
-		if i > 0 && g.R.P(0.35) {
+		if i > 0 && g.R.P(0.35) && !g.NoRefs {
 			// inheritance: allOf [ $ref base, own properties ]
 			base := g.defNames[g.R.Intn(len(g.defNames))]
 			own := map[string]any{"type": "object", "properties": map[string]any{fmt.Sprintf("own%d%s", i, g.Tag): map[string]any{"type": "string"}}}
 			defs[name] = map[string]any{"allOf": []any{map[string]any{"$ref": "#/definitions/" + base}, own}}
 		} else {
-			defs[name] = g.objectSchema(g.R.Range(0, 2), true)
+			defs[name] = g.objectSchema(g.R.Range(0, 2), !g.NoRefs)
 		}
 		g.defNames = append(g.defNames, name)
 	}
@@ -122,7 +132,11 @@ func (g *SpecGen) Clean() map[string]any {
 	sharedParam := g.n("limit")
 	doc["parameters"] = map[string]any{sharedParam: map[string]any{"name": sharedParam, "in": "query", "type": "integer", "format": "int32", "minimum": I(1), "default": I(10)}}
 	sharedResp := g.n("Err")
-	doc["responses"] = map[string]any{sharedResp: map[string]any{"description": "error", "schema": map[string]any{"$ref": "#/definitions/" + g.defNames[0]}}}
+	if g.NoRefs {
+		doc["responses"] = map[string]any{sharedResp: map[string]any{"description": "error", "schema": map[string]any{"type": "object"}}}
+	} else {
+		doc["responses"] = map[string]any{sharedResp: map[string]any{"description": "error", "schema": map[string]any{"$ref": "#/definitions/" + g.defNames[0]}}}
+	}
 
 	paths := map[string]any{}
 	np := g.R.Range(1, 3)
@@ -165,7 +179,7 @@ func (g *SpecGen) operation(path, method string, pathParams []string, sharedPara
 		}
 		params = append(params, map[string]any{"name": pp, "in": "path", "required": true, "type": t})
 	}
-	if g.R.P(0.5) {
+	if g.R.P(0.5) && !g.NoRefs {
 		params = append(params, map[string]any{"$ref": "#/parameters/" + sharedParam})
 	}
 	if g.R.P(0.5) {
@@ -183,16 +197,23 @@ func (g *SpecGen) operation(path, method string, pathParams []string, sharedPara
 		s, _, _ := g.scalar()
 		params = append(params, map[string]any{"name": g.n("tags"), "in": "query", "type": "array", "items": s, "collectionFormat": "csv"})
 	}
+	if g.R.P(0.15) {
+		// legal but warned about: a required parameter with a default; a validation keyword foreign to the type
+		params = append(params, map[string]any{"name": g.n("rq"), "in": "query", "type": "integer", "required": true, "default": I(3)})
+	}
+	if g.R.P(0.15) {
+		params = append(params, map[string]any{"name": g.n("odd"), "in": "query", "type": "string", "maximum": I(10)})
+	}
 	if g.R.P(0.3) {
 		params = append(params, map[string]any{"name": "X-" + g.n("hdr"), "in": "header", "type": "string", "pattern": "^[a-z]+$"})
 	}
 	if method != "get" && method != "delete" {
 		if g.R.P(0.6) {
 			var schema map[string]any
-			if g.R.Bool() {
+			if g.R.Bool() && !g.NoRefs {
 				schema = map[string]any{"$ref": "#/definitions/" + g.defNames[g.R.Intn(len(g.defNames))]}
 			} else {
-				schema = g.objectSchema(1, true)
+				schema = g.objectSchema(1, !g.NoRefs)
 			}
 			params = append(params, map[string]any{"name": g.n("body"), "in": "body", "required": true, "schema": schema})
 		} else if g.R.P(0.5) {
@@ -206,7 +227,7 @@ func (g *SpecGen) operation(path, method string, pathParams []string, sharedPara
 	responses := map[string]any{}
 	ok := map[string]any{"description": "ok"}
 	if g.R.P(0.7) {
-		if g.R.Bool() {
+		if g.R.Bool() && !g.NoRefs {
 			ok["schema"] = map[string]any{"$ref": "#/definitions/" + g.defNames[g.R.Intn(len(g.defNames))]}
 		} else {
 			s, good, _ := g.scalar()
@@ -220,7 +241,7 @@ func (g *SpecGen) operation(path, method string, pathParams []string, sharedPara
 		ok["headers"] = map[string]any{"X-Rate" + g.Tag: map[string]any{"type": "integer", "format": "int32", "default": I(5), "maximum": I(100)}}
 	}
 	responses["200"] = ok
-	if g.R.P(0.5) {
+	if g.R.P(0.5) && !g.NoRefs {
 		responses["default"] = map[string]any{"$ref": "#/responses/" + sharedResp}
 	}
 	op["responses"] = responses
